@@ -201,6 +201,11 @@ def run(ctx):
     except Skip:
         pass
 
+    try:
+        from .. import evrules
+        evrules.accessor(ctx, "R08.5", "signals")   # the quit decision reads the batch's signals through Event::signals()
+    except Skip:
+        pass
     # ---- R08.5 handler table + CLI
     try:
         q = ctx.anchor_fn("R08.5", "watchexec::action::handler::Handler::quit")
